@@ -21,6 +21,8 @@ EXPLANATION = (
 
 
 def run(ctx: Ctx) -> None:
+    from ..rules import memo as _memo
+    _memo.rule_memo_sound(ctx, ['graphiq/solvers/evolutionary_solver.py', 'graphiq/solvers/hybrid_solvers.py'])
     solvers.rule_twoqubit(ctx)
     solvers.rule_move_filters(ctx)
     solvers.rule_frontinsert(ctx)
